@@ -16,14 +16,14 @@ func init() {
 	fw.Register(&fw.Prop{
 		ID:       "C01",
 		Parallel: 4, // cases are judged on 4 goroutines per shard: the library functions are stateless, shared state inside them shows up as wrong verdicts
-		Rule: "(public key, message, signature) triples in classes: honest (crypto/ed25519 signatures, message length 0..2500 and around 2^9..2^13), bitflip (1-2 flipped bits), s_plus_jL (S+jL for every j with S+jL < 2^256), torsion (A=[s]B+T, R=[r]B+T' for all 8x8 torsion pairs, S=r+k*s with k over the bytes as given, and the same with S perturbed), smallorder (every encoding of every small-order point incl. non-canonical ones as A and as R, with S=0, S=k*s, S=jL, S=1), noncanonical_y (all 38 encodings with y>=p), undecodable A/R, length (signature lengths 0..70), random, and sequence (2..6 consecutive calls on the related keys A and -A, which differ in the sign bit only, with signatures of either, torsion-shifted keys and undecodable R in between: every verdict must equal the predicate of that call alone). " +
+		Rule: "(public key, message, signature) triples in classes: honest (crypto/ed25519 signatures, message length 0..2500 and around 2^9..2^13), bitflip (1-2 flipped bits), s_plus_jL (S+jL for every j with S+jL < 2^256), torsion (A=[s]B+T, R=[r]B+T' for all 8x8 torsion pairs, S=r+k*s with k over the bytes as given, and the same with S perturbed), smallorder (every encoding of every small-order point incl. non-canonical ones as A and as R, with S=0, S=k*s, S=jL, S=1), noncanonical_y (all 38 encodings with y>=p), s_high (canonical S in the sliver [2^252, L), built from a small-order A and R=[S]B+T', with structured limbs, and S just at/above L), undecodable A/R, length (signature lengths 0..70), random, and sequence (2..6 consecutive calls on the related keys A and -A, which differ in the sign bit only, with signatures of either, torsion-shifted keys and undecodable R in between: every verdict must equal the predicate of that call alone; the inputs of a sequence are passed in buffers that are overwritten in place between the calls, and some steps first call Sign with a well-formed or a mismatched (seed of one key, public half of another) private key and verify the result). " +
 			"Every Verify call is judged two-sidedly against the big-integer ZIP-215 model and one-sidedly against crypto/ed25519 (std accept => accept). Non-trivial: every distinct triple outside class random.",
 		Assumptions: []string{"SHA-512 of the Go standard library", "math/big", "the ZIP-215 model in harness/oracle/ed (self-tested against RFC 8032 vectors, crypto/ed25519 and the known small-order encodings)"},
 		SelfTest:    ed.SelfTest,
 		Gen:         gen,
 		Judge:       judge,
 		Render:      render,
-		Required:    []string{"model=accept impl=accept", "model=reject impl=reject", "std=accept", "sequence step model=accept", "sequence step model=reject"},
+		Required:    []string{"s_high model=accept", "s_high model=reject", "sequence: sign-then-verify steps", "model=accept impl=accept", "model=reject impl=reject", "std=accept", "sequence step model=accept", "sequence step model=reject"},
 	})
 }
 
@@ -32,7 +32,7 @@ func render(class string, key []byte) interface{} {
 	if class == "sequence" {
 		var calls []map[string]string
 		for i := 0; i+2 < len(p); i += 3 {
-			calls = append(calls, map[string]string{"public_key": fw.Hex(p[i]), "message": fw.Hex(p[i+1]), "signature": fw.Hex(p[i+2])})
+			calls = append(calls, map[string]string{"public_key_or_private_key_of_a_sign_step": fw.Hex(p[i]), "message": fw.Hex(p[i+1]), "signature": fw.Hex(p[i+2])})
 		}
 		return map[string]interface{}{"calls_in_order": calls}
 	}
@@ -42,19 +42,37 @@ func render(class string, key []byte) interface{} {
 func judge(class string, key []byte, o *fw.Obs) {
 	p := fw.Unpack(key)
 	if class == "sequence" {
-		// a history of calls in one process: every verdict must equal the predicate of that call alone
+		// a history of calls in one process: every verdict must equal the predicate of that call alone.
+		// All inputs of the sequence live in ONE set of buffers that is overwritten in place between the
+		// calls (a caller reusing its buffers): the verdict may depend only on the bytes at call time.
 		o.Nontrivial()
+		pubBuf, sigBuf := make([]byte, 32), make([]byte, 64)
+		msgBuf := make([]byte, 0, 4096)
 		for i := 0; i+2 < len(p); i += 3 {
-			pub, msg, sig := p[i], p[i+1], p[i+2]
-			want := ed.VerifyZIP215(pub, msg, sig)
+			pubIn, msg, sigIn := p[i], p[i+1], p[i+2]
+			if len(pubIn) == 64 {
+				// a signing step: pubIn is a 64-byte private key (seed || public half, the halves need not
+				// match); the produced signature is then verified under the public half
+				priv := append([]byte(nil), pubIn...)
+				var made []byte
+				if !o.Try("ed25519.Sign", func() { made = ed25519.Sign(ed25519.PrivateKey(priv), msg) }) {
+					return
+				}
+				pubIn, sigIn = pubIn[32:], made
+				o.Count("sequence: sign-then-verify steps")
+			}
+			copy(pubBuf, pubIn)
+			msgBuf = append(msgBuf[:0], msg...)
+			sb := append(sigBuf[:0], sigIn...)
+			want := ed.VerifyZIP215(pubIn, msg, sigIn)
 			var got bool
-			if !o.Try("ed25519.Verify", func() { got = ed25519.Verify(ed25519.PublicKey(pub), msg, sig) }) {
+			if !o.Try("ed25519.Verify", func() { got = ed25519.Verify(ed25519.PublicKey(pubBuf), msgBuf, sb) }) {
 				return
 			}
 			o.Count(fmt.Sprintf("model=%s impl=%s", ar(want), ar(got)))
 			o.Count(fmt.Sprintf("sequence step model=%s", ar(want)))
 			if want != got {
-				o.Fail("verdict", "call %d of a sequence of %d Verify calls: Verify(%x, %x, %x) = %v but the ZIP-215 predicate is %v (earlier calls of the sequence used related keys; the verdict must not depend on them)", i/3+1, len(p)/3, pub, msg, sig, got, want)
+				o.Fail("verdict", "call %d of a sequence of %d calls (inputs passed in buffers that are reused in place): Verify(%x, %x, %x) = %v but the ZIP-215 predicate is %v (earlier calls of the sequence used related keys; the verdict must not depend on them)", i/3+1, len(p)/3, pubIn, msg, sigIn, got, want)
 				return
 			}
 		}
@@ -258,6 +276,41 @@ func gen(g *fw.Gen) {
 		}
 	}
 
+	// canonical S in the top sliver [2^252, L): honest signatures land there with probability 2^-127, so
+	// they are built from a small-order A and R = [S]B + T' (the cofactored equation then holds for any S)
+	{
+		top := new(big.Int).Lsh(big.NewInt(1), 252)
+		width := new(big.Int).Sub(ed.L, top)
+		wl1 := new(big.Int).Rsh(width, 64).Uint64() // bits 64..127 of L - 2^252
+		wl0 := new(big.Int).And(width, new(big.Int).SetUint64(^uint64(0))).Uint64()
+		mk := func(hi, lo uint64) *big.Int {
+			v := new(big.Int).SetUint64(hi)
+			v.Lsh(v, 64)
+			return v.Or(v, new(big.Int).SetUint64(lo))
+		}
+		for n := g.ShareOf(600, 30000); n > 0; n-- {
+			var t *big.Int
+			switch g.Rng.Intn(6) {
+			case 0:
+				t = new(big.Int).Rand(g.Rng, width)
+			case 1: // high limb below the bound's, low limb above the bound's
+				t = mk(g.Rng.Uint64()%wl1, wl0+g.Rng.Uint64()%(^uint64(0)-wl0))
+			case 2: // high limb equal, low limb below
+				t = mk(wl1, g.Rng.Uint64()%wl0)
+			case 3: // a few below the order
+				t = new(big.Int).Sub(width, big.NewInt(int64(1+g.Rng.Intn(1000))))
+			case 4: // at and just above the order (must be rejected)
+				t = new(big.Int).Add(width, big.NewInt(int64(g.Rng.Intn(3))))
+			default:
+				t = mk(g.Rng.Uint64()%(wl1+1), g.Rng.Uint64())
+			}
+			S := new(big.Int).Add(top, t)
+			A := smallEnc[g.Rng.Intn(len(smallEnc))]
+			R := ed.BaseMul(new(big.Int).Mod(S, ed.L)).Add(tors[g.Rng.Intn(8)]).Encode()
+			emit(g, "s_high", A, randMsg(g), sigOf(R, S))
+		}
+	}
+
 	// sequences of calls on related keys (A, -A, A+T, undecodable in between): the verdict of a call
 	// must not depend on earlier calls (caches, pooled state)
 	for n := g.ShareOf(400, 20000); n > 0; n-- {
@@ -284,7 +337,7 @@ func gen(g *fw.Gen) {
 				k = keys[g.Rng.Intn(2)]
 			}
 			msg := randMsg(g)
-			switch g.Rng.Intn(6) {
+			switch g.Rng.Intn(8) {
 			case 0: // signature of the other key of the pair: must be rejected
 				parts = append(parts, k.pub, msg, sign(keys[1-st%2], msg))
 			case 1: // undecodable R in between
@@ -299,6 +352,12 @@ func gen(g *fw.Gen) {
 				parts = append(parts, k.pub, msg, append(bad, sg[32:]...))
 			case 2: // the key with a torsion component, honest signature of the clean key
 				parts = append(parts, ed.BaseMul(k.sc).Add(tors[1+g.Rng.Intn(7)]).Encode(), msg, sign(k, msg))
+			case 3: // signing step with a private key whose halves do not match: seed of a fresh key, public half of k
+				parts = append(parts, append(g.Bytes(32), k.pub...), msg, nil)
+			case 4: // signing step with a well-formed private key
+				seed := g.Bytes(32)
+				hp, _, _ := ed.PublicFromSeed(seed)
+				parts = append(parts, append(seed, hp...), msg, nil)
 			default:
 				parts = append(parts, k.pub, msg, sign(k, msg))
 			}
